@@ -300,6 +300,8 @@ impl Writer {
                 planning_offset += need;
                 batch_idx += 1;
             } else {
+                #[cfg(walrus_verif)]
+                crate::wal::verif::probe("batch_plan_switches_block");
                 // Need to seal and allocate new block
                 debug_print!(
                     "[batch] sealing block_id={}, used={}, need={}, limit={}",
